@@ -401,6 +401,11 @@ Fixpoint update_vals (last new : list (str * val)) : list (str * val) :=
     update_vals last' r
   end.
 
+(* state update at a boundary (after the repair): a page_by level the new row filters out (a divider) is forgotten,
+   the levels it shows are set *)
+Definition refresh_vals (keys : list str) (last new : list (str * val)) : list (str * val) :=
+  update_vals (filter (fun kv => negb (mem_str (fst kv) keys) || existsb (fun nv => str_eqb (fst nv) (fst kv)) new) last) new.
+
 (* the force_render loop over the page_by columns at one boundary *)
 Fixpoint boundary_headings (ctx : option (list str)) (s : secdoc) (keys : list str)
          (new last : list (str * val)) (force : bool) : res (list item) :=
@@ -431,7 +436,7 @@ Fixpoint render_segments (ctx : option (list str)) (s : secdoc) (a : attrs) (cw 
                then table_encode ctx a cw (firstn (rel - prev) (skipn prev rows)) prev
                else Ok []);
     do heads <- boundary_headings ctx s (opt_list (b_page_by (s_body s))) gv last false;
-    do more <- render_segments ctx s a cw rows rest rel (update_vals last gv);
+    do more <- render_segments ctx s a cw rows rest rel (refresh_vals (opt_list (b_page_by (s_body s))) last gv);
     Ok (seg ++ heads ++ more)
   end.
 
